@@ -24,6 +24,11 @@ def base_scenarios(rng, n):
             if rng.random() < .5:
                 op['init'] = True
                 op['init_dur'] = 0.02
+            # what the pool is used for afterwards: joining it, another call
+            follow = rng.choice([[], [{'op': 'stop_and_join'}], [{'op': 'map', 'n': 4, 'chunk_size': 1}],
+                                 [{'op': 'apply_batch', 'tasks': [{'idx': 7}, {'idx': 8}], 'dur': {'kind': 'map', 'map': {}, 'default': 0.01}, 'get_timeout': 30}, {'op': 'stop_and_join'}]])
+            out.append({'seed': rng.randint(0, 10 ** 6), 'pool': pool, 'ops': [op] + follow, 'judge_op': 0, 'same_func': True})
+            continue
         else:
             op = {'op': kind, 'n': rng.randint(2, 8), 'chunk_size': rng.choice([1, 2]), 'dur': {'kind': 'hash', 'salt': rng.randint(0, 99), 'unit': 0.01}}
             if rng.random() < .3:
@@ -60,14 +65,43 @@ def judge(chk, sc, o):
         return 'harness'
     case = {'scenario': sc}
     if o.get('stuck'):
-        chk.violation('no_hang_after_death', case, {'stuck': o['stuck'], 'injected': o.get('injected')}, 'the call raises or completes within bounded time',
-                      input_class='death_hang')
+        ph = (o.get('injected') or {}).get('victim_phase')
+        if sc['ops'][0]['op'] == 'apply_batch' and ph in ('apply_pill_taken', 'apply_task_taken'):
+            # known: the task is lost in the dequeue window (and what the victim took is never acknowledged, so joining blocks)
+            chk.violation('apply_death_isolated', case, {'stuck': o['stuck'], 'injected': o.get('injected')}, 'at most the one task the dead worker was running fails',
+                          input_class='apply_death_dequeue_window')
+        elif sc['ops'][0]['op'] == 'apply_batch' and ph == 'pill_taken' and sc['ops'][(o.get('injected') or {}).get('opi', 0)]['op'] == 'stop_and_join':
+            chk.violation('apply_death_isolated', case, {'stuck': o['stuck'], 'injected': o.get('injected')}, 'joining the pool ends although a worker died while it was being stopped',
+                          input_class='apply_death_taking_poison_pill')
+        elif sc['ops'][0]['op'] == 'apply_batch' and ph == 'results_sent':
+            chk.violation('apply_death_isolated', case, {'stuck': o['stuck'], 'injected': o.get('injected')}, 'the pool stays usable (it can be joined) after the death',
+                          input_class='apply_death_after_results_before_ack')
+        else:
+            chk.violation('no_hang_after_death', case, {'stuck': o['stuck'], 'injected': o.get('injected')}, 'the call raises or completes within bounded time',
+                          input_class='death_hang')
         return 'stuck'
     if 'injected' not in o:
         return 'skipped:' + o.get('inject_skipped', 'point not reached')
-    opi = len(sc['ops']) - 1
+    opi = sc.get('judge_op', len(sc['ops']) - 1)
     op, last = sc['ops'][opi], o['ops'][opi]
     inj = o['injected']
+    if inj.get('opi', opi) != opi:
+        return 'skipped:killed during a follow-up operation'
+    # the pool is used again after the death in an apply batch: joining and later calls work
+    window_phase = inj.get('victim_phase') in ('apply_pill_taken', 'apply_task_taken', 'init_announced', 'init_ran', 'exit_announced', 'exit_ran')
+    for k in range(opi + 1, len(sc['ops'])):
+        fo, foo = sc['ops'][k], (o['ops'][k] if k < len(o['ops']) else {})
+        okk = foo.get('outcome') == 'ok'
+        if okk and fo['op'] == 'map':
+            okk = foo.get('result') == [oracles.value_of(i) for i in range(fo['n'])]
+        if fo['op'] == 'map' and foo.get('outcome') == 'raise' and (foo.get('exc') or {}).get('type') == 'RuntimeError' and 'died unexpectedly' in str((foo.get('exc') or {}).get('args')):
+            break       # the death was noticed only once the map call had begun: a subsequent map-family call raises RuntimeError (as stated)
+        if okk and fo['op'] == 'apply_batch':
+            okk = all(a[1] == 'ok' and a[2] == oracles.value_of(a[0]) for a in foo.get('apply', []))
+        if not okk and not window_phase:
+            chk.violation('pool_usable_after_apply_death', case, {'follow_up_op': k, 'outcome': foo.get('outcome'), 'exc': foo.get('exc'), 'apply': foo.get('apply'), 'injected': inj},
+                          'after a worker died in an apply batch the pool can be joined and used again', input_class='apply_death_followup')
+            break
     cls = None
     if op['op'] == 'apply_batch':
         if last.get('outcome') != 'ok':
@@ -116,12 +150,14 @@ def judge(chk, sc, o):
 def handover_tie(chk, sc, o, model):
     """apply pools: what happened to the task the victim was handed, vs Mpire.Handover for the phase the victim was killed in"""
     inj = o.get('injected') or {}
-    if sc['ops'][-1]['op'] != 'apply_batch' or not inj or o.get('stuck') or o.get('harness_error'):
+    if sc['ops'][sc.get('judge_op', -1)]['op'] != 'apply_batch' or not inj or o.get('stuck') or o.get('harness_error'):
+        return
+    if 'judge_op' in sc and inj.get('opi', sc['judge_op']) != sc['judge_op']:
         return
     phase = {'apply_pill_taken': 'pill', 'apply_task_taken': 'task', 'job_announced': 'announced', 'in_user': 'announced'}.get(inj.get('victim_phase'))
     if phase is None:
         return
-    last = o['ops'][-1]
+    last = o['ops'][sc.get('judge_op', -1)]
     bad = sorted(a for a in last.get('apply', []) if a[1] != 'ok')
     # the task the victim was handed: tasks are handed out in index order, so it is the lowest-index task that did not succeed
     mine = bad[:1]
